@@ -38,12 +38,32 @@ EXPRS = {
     '(a.cp(b))*(a.acp(b))': lambda a, b, c, d: a.cp(b) * a.acp(b),
     '((a*b).grade(0,2)).inv()*c': lambda a, b, c, d: ((a * b).grade(0, 2)).inv() * c,
 }
+# the same kind of expression compiled with register(symbolic=True): its arithmetic runs on the configured symbol class at generation time
+REG_SRC = {
+    'reg:(2-a)*b': 'def rs1(a, b, c):\n    return (2 - a) * b\n',
+    'reg:1-a*b+c': 'def rs2(a, b, c):\n    return 1 - a * b + c\n',
+    'reg:(a-3)^(b+c)': 'def rs3(a, b, c):\n    return (a - 3) ^ (b + c)\n',
+    'reg:(1-a)/2+b*0.5': 'def rs4(a, b, c):\n    return (1 - a) / 2 + b * 0.5\n',
+    'reg:(a|b)*c-(-2+c)': 'def rs5(a, b, c):\n    return (a | b) * c - (-2 + c)\n',
+}
+_REG_CACHE = {}
+
+
+def reg_expr(alg, en):
+    key = (id(alg), en)
+    if key not in _REG_CACHE:
+        ns = {}
+        exec(REG_SRC[en], ns)
+        fn = [v for k, v in ns.items() if k.startswith('rs')][0]
+        _REG_CACHE[key] = alg.register(symbolic=True)(fn)
+    return _REG_CACHE[key]
 
 
 def floors(tier):
     f = {'distinct_nontrivial': 2500 if tier == 'quick' else 40000, 'graded_results_checked_complete': 500,
          'graded_degenerate_cases': 150, 'sympy_symbol_cases': 60}
     f['multi_step_expressions'] = 150
+    f['permuted_order_under_option'] = 300
     for v in VARIANTS:
         f['variant_' + v] = 60 if v == 'sympy-symbols' else 300
     for o in ALLOPS:
@@ -92,7 +112,7 @@ def run_shard(shard, ctx):
                 algs[vn] = a_
         ctx.count('signatures')
         if base.d <= 3 or unit.get('composite_only'):
-            for en in EXPRS:
+            for en in list(EXPRS) + (list(REG_SRC) if base.d <= 3 else []):
                 for _ in range(2 if ctx.tier == 'quick' else 6):
                     if ctx.out_of_time():
                         return
@@ -156,6 +176,23 @@ def one_case(ctx, base, algs, cfg, name, op, unit):
         if st == 'timeout':
             ctx.count('variant_timeouts')
             continue
+        if 'graded' not in vn and st == 'ok' and st0 == 'ok' and rng.random() < 0.3 and any(len(ks) > 1 for _, ks in pats):
+            # the same operands stored in a permuted key order, under this option setting (not possible in graded mode)
+            perm = [list(range(len(ks))) for _, ks in pats]
+            for p_ in perm:
+                rng.shuffle(p_)
+
+            def run_perm(a_):
+                from kingdon.multivector import MultiVector
+                mvs = [MultiVector.fromkeysvalues(a_, tuple(ks[i] for i in p_), [v[i] for i in p_]) for ((gs, ks), v), p_ in zip(zip(pats, vals), perm)]
+                return ops.call_op(a_, op, *mvs, form='alg')
+            stp, rp = ctx.guarded(to * (3 if vn == 'sympy-symbols' else 1), run_perm, alg)
+            if stp == 'ok':
+                ctx.count('permuted_order_under_option')
+                if elem_diff(mv_dict(rp), mv_dict(r0)):
+                    ctx.violation('option setting changes the result', cid + ['permuted'], blades=[], op=op, variant=vn, config=cfg,
+                                  grades=wit0['grades'], keys=[[ks[i] for i in p_] for (_, ks), p_ in zip(pats, perm)], values=wit0['values'],
+                                  default_result=show_elem(mv_dict(r0)), variant_result=show_elem(mv_dict(rp)), r=base.r, graded=False)
         ctx.count('variant_' + vn)
         ctx.count('op_' + op)
         if vn == 'sympy-symbols':
@@ -198,12 +235,14 @@ def one_case(ctx, base, algs, cfg, name, op, unit):
 def expr_case(ctx, base, algs, cfg, name, en):
     rng = ctx.rng
     to = CASE_TIMEOUT[ctx.tier]
-    f = EXPRS[en]
+    f = EXPRS.get(en)
     pats = [grade_block_keys(base, rng, 'sw') for _ in range(3)]
     vals = [[gen.small_frac(rng, nonzero=(rng.random() < 0.6)) for _ in ks] for gs, ks in pats]
 
     def run(alg):
         mvs = [alg.multivector(keys=tuple(ks), values=list(v)) for (gs, ks), v in zip(pats, vals)]
+        if f is None:
+            return reg_expr(alg, en)(*mvs)
         return f(*mvs, alg.d)
     st0, r0 = ctx.guarded(to, run, base)
     if st0 != 'ok':
